@@ -50,26 +50,36 @@ def run_one(base, case, run):
                             ignore=shutil.ignore_patterns('*.py', '*.pyc', '__pycache__'))
     out = os.path.join(loc, 'out')
     shutil.rmtree(out, ignore_errors=True)
+    for rel, text in case.get('config_files', {}).items():
+        if not os.path.exists(os.path.join(loc, rel)):
+            write_tree(loc, {rel: text})
     if run['cwd'] == 'loc':
         cwd = loc
+    elif run['cwd'].startswith('sub:'):
+        cwd = os.path.join(loc, run['cwd'][4:])          # a directory inside the project: relative spellings change
     else:
         cwd = os.path.join(cdir, 'some', 'other', 'cwd')
-        os.makedirs(cwd, exist_ok=True)
-    if run['paths'] == 'rel' and run['cwd'] == 'loc':
-        p_root, p_out = os.path.join('in', case['root']), 'out'
-        p_look = [os.path.join('in2', r) for r in case.get('lookup_roots', [])]
-    else:
-        p_root, p_out = os.path.join(loc, 'in', case['root']), out
-        p_look = [os.path.join(loc, 'in2', r) for r in case.get('lookup_roots', [])]
-    cmd = [PY, '-m', 'nunavut', '--target-language', case['lang'], '-O', p_out] + list(case['args'])
-    rel_ok = run['paths'] == 'rel' and run['cwd'] == 'loc'
-    if tpl:
-        cmd += ['--templates', 'tpl' if rel_ok else os.path.join(loc, 'tpl')]
-        if tpl == 'both':
-            cmd += ['--support-templates', 'stpl' if rel_ok else os.path.join(loc, 'stpl')]
-    for l in p_look:
-        cmd += ['--lookup-dir', l]
-    cmd.append(p_root)
+    os.makedirs(cwd, exist_ok=True)
+
+    def spell(target):
+        return os.path.relpath(target, cwd) if run['paths'] == 'rel' and run['cwd'] != 'other' else target
+    p_root, p_out = spell(os.path.join(loc, 'in', case['root'])), spell(out)
+    p_look = [spell(os.path.join(loc, 'in2', r)) for r in case.get('lookup_roots', [])]
+
+    def command(args):
+        cmd = [PY, '-m', 'nunavut', '--target-language', case['lang']]
+        if case.get('config_order'):
+            cmd += ['-c'] + [spell(os.path.join(loc, c)) for c in case['config_order']]
+        cmd += ['-O', p_out] + list(args)
+        if tpl:
+            cmd += ['--templates', spell(os.path.join(loc, 'tpl'))]
+            if tpl == 'both':
+                cmd += ['--support-templates', spell(os.path.join(loc, 'stpl'))]
+        for l in p_look:
+            cmd += ['--lookup-dir', l]
+        cmd.append(p_root)
+        return cmd
+    cmd = command(case['args'])
     env = dict(os.environ)
     env['PYTHONHASHSEED'] = str(run['hashseed'])
     src = env['PYTHONPATH']
@@ -79,9 +89,16 @@ def run_one(base, case, run):
             env['C07_FAKE_OFFSET'] = str(run['fake_offset'])
         if run.get('fake_frozen'):
             env['C07_FAKE_FROZEN'] = str(run['fake_frozen'])
+    pre_log = ''
+    if run.get('pre_args') is not None:
+        # the output directory was used before: another option set, an earlier time (not removed afterwards)
+        q = subprocess.run(command(run['pre_args']), cwd=cwd, env=env, stdout=subprocess.PIPE, stderr=subprocess.STDOUT, text=True,
+                           errors='replace', timeout=300)
+        pre_log = q.stdout[-300:] if q.returncode else ''
+        time.sleep(0.05)
     t0 = time.time()
     p = subprocess.run(cmd, cwd=cwd, env=env, stdout=subprocess.PIPE, stderr=subprocess.STDOUT, text=True, errors='replace', timeout=300)
-    res = {'rc': p.returncode, 'files': {}, 'includes': {}, 't0': t0, 'log': p.stdout[-600:] if p.returncode else '', 'abs': loc, 'cwd': cwd}
+    res = {'rc': p.returncode, 'files': {}, 'includes': {}, 't0': t0, 'log': p.stdout[-600:] if p.returncode else '', 'abs': loc, 'cwd': cwd, 'pre_log': pre_log}
     mt = []
     for root, _, names in os.walk(out):
         for n in names:
